@@ -1,13 +1,15 @@
 """C13: committee-run deployment (deploy/*.go: a Go orchestrator, not a contract)."""
 RULE = ("layer 1 (helpers): divideFundsEvenly exhaustively on amount 0..60 (thorough 0..400) x n -2..12 (thorough ..40), uint64/receiver-count "
         "boundaries and random pairs; the nonce/ValidUntilBlock window on every height of the first and the last three windows of uint32, "
-        "boundary and random heights, HALT and non-HALT states; sharedTransactionData: random and boundary values encoded, decoded, mutated "
+        "boundary and random heights, HALT and non-HALT states; ONE modifier applied at a sequence of heights (windowseq: across multiples of 100, "
+        "at the uint32 saturation boundary, decreasing, equal, random walks): every application must get the window of its own height; sharedTransactionData: random and boundary values encoded, decoded, mutated "
         "(a malformed stream: dropped/replaced/inserted characters, newlines, wrong padding, trailing bits, wrong lengths), checksums prepended, "
         "verified, damaged, made for other data; sharedTxDataMatches; NNS names for members -3..24 and int boundaries. "
         "layer 3 (execution): seeded schedules of the real deploy.Deploy on an in-process chain: quick n in {1,2,3} (+ bootstrap-only n in {2,4,7}), thorough n = 1..7 x "
         "{all at once | 3 x (seeded start delays + a minority of non-leading members absent until the Notary role is designated + one member "
         "cancelled at a seeded block and restarted) | the leader cancelled early | another cancel point}, each followed by a second run of all members; "
-        "bootstrap-only schedules (exact majorities with the leader, leader + last members, sets that must stall) compared with the "
+        "thorough also 2 upgrade schedules (previous-version executables on chain, the procedure with the supplied ones entered "
+        "shortly before a multiple of 100 with seeded delays: every contract updated exactly once, next run inert); bootstrap-only schedules (exact majorities with the leader, leader + last members, sets that must stall) compared with the "
         "bootstrap model. distinct_nontrivial = distinct (operation, observation) pairs that did not end in a panic/error")
 PROPS = {
     "C13": dict(lean=["NeoFS.Props.C13"], custom="deploy_flow", harness="mininode", driver="drv_deploy", monitors=["C13"],
@@ -24,7 +26,8 @@ CLAIMS = {
     "C13": dict(
         text="PROOF (Lean 4, unbounded) for the pure helpers: divideFundsEvenly hands out shares that sum to the input, differ by at most one, are never zero, "
              "go to receivers 0..k-1 in order, and n = 0 is the only rejected receiver count; the nonce/ValidUntilBlock window satisfies "
-             "nonce = 100*(h/100) <= h < nonce+100 and vub = min(nonce+100, MaxUint32) for every uint32 height without wrap-around; "
+             "nonce = 100*(h/100) <= h < nonce+100 and vub = min(nonce+100, MaxUint32) for every uint32 height without wrap-around, also when one "
+             "modifier is applied at a sequence of heights (each application gets the window of its own height; same nonce/VUB iff same window); "
              "sharedTransactionData encodes to 28 bytes / 40 base64 characters, decode(encode x) = x, the decoder accepts nothing but serialisations, "
              "shiftChecksum(unshiftChecksum x d) = (true, d) and a differing checksum is refused; member signature domains are pairwise distinct and "
              "differ from the shared-data domain. "
